@@ -136,3 +136,309 @@ Theorem spec_zerofill_err d off buf :
 Proof.
   intros H. unfold spec_read_zerofill. replace (off <=? lenN d) with false by (symmetry; apply N.leb_gt; exact H). reflexivity.
 Qed.
+
+(* ---------------------------------------------------------------- (2) copy_from_storage_zero_fill *)
+Lemma mem_bytes_len m a n : lenN (mem_bytes m a n) = n.
+Proof. unfold mem_bytes, lenN. rewrite map_length, seqN_length. lia. Qed.
+
+Lemma zero_fill_buffer_ok d wb off nf b :
+  zero_fill_buffer (Some d) wb off (lenN d) nf = inl b -> b = loaded_bytes d off (lenN wb).
+Proof.
+  unfold zero_fill_buffer, loaded_bytes, slice_zerofill. rewrite firstn_app_zeros.
+  destruct (N.ltb_spec off (lenN d)) as [Hlt|Hge].
+  - destruct (U32 <=? off); [discriminate|].
+    unfold m_read_zerofill. replace (lenN d <? off) with false by (symmetry; apply N.ltb_ge; lia).
+    intros H. injection H as <-. unfold saturating_sub.
+    set (a := skipn (N.to_nat off) d).
+    assert (Ha : lenN a = lenN d - off) by (unfold a; rewrite lenN_skipn; lia).
+    set (srl := N.min (lenN d - off) (lenN wb)).
+    assert (Hf : lenN (firstn (N.to_nat srl) wb) = srl) by (rewrite lenN_firstn; unfold srl; lia).
+    rewrite Hf, Ha. replace (N.min (lenN d - off) srl) with srl by (unfold srl; lia).
+    replace (srl - srl) with 0 by lia. cbn [N.to_nat zeros repeat]. rewrite app_nil_r.
+    replace (Nat.min (length a) (N.to_nat (lenN wb))) with (N.to_nat srl) by (unfold srl, lenN in *; lia).
+    f_equal. f_equal. unfold srl, lenN in *. lia.
+  - intros H. injection H as <-.
+    assert (Hs : skipn (N.to_nat off) d = []) by (apply skipn_all2; unfold lenN in Hge; lia).
+    rewrite Hs. cbn [length Nat.min firstn app]. f_equal. lia.
+Qed.
+
+Lemma zero_fill_buffer_succeeds d wb off nf :
+  (off < lenN d -> off < U32) -> exists b, zero_fill_buffer (Some d) wb off (lenN d) nf = inl b.
+Proof.
+  intros H. unfold zero_fill_buffer.
+  destruct (N.ltb_spec off (lenN d)) as [Hlt|Hge]; [|eauto].
+  replace (U32 <=? off) with false by (symmetry; apply N.leb_gt; auto).
+  unfold m_read_zerofill. replace (lenN d <? off) with false by (symmetry; apply N.ltb_ge; lia). eauto.
+Qed.
+
+(* success of copy_from_storage_zero_fill: the destination range was accessible and owned, and
+   afterwards memory is the old memory with value[off..off+len] ++ zeros at [dst, dst+len) *)
+Theorem copy_zero_fill_ok m o d dst len off nf m' :
+  Inv m -> copy_from_storage_zero_fill m o (Some d) dst len off (lenN d) nf = inl m' ->
+  check_range (abs m) dst len = None /\ owns o dst (dst + len) = true /\
+  R m' {| stk_hi := sv_len (stack m); hp := mhp m;
+          data := upd_range (mem_get m) dst (loaded_bytes d off len) |}.
+Proof.
+  intros HI. unfold copy_from_storage_zero_fill, write_range.
+  rewrite (verify_refines m (abs m) dst len (R_abs m HI)).
+  destruct (check_range (abs m) dst len) eqn:Hc; cbn [of_res vbind fst snd]; [discriminate|].
+  destruct (owns o dst (dst + len)) eqn:Ho; [|discriminate]. cbn [vbind].
+  destruct (zero_fill_buffer (Some d) (mem_bytes m dst len) off (lenN d) nf) as [b|e] eqn:Hb; [|discriminate].
+  cbn [vbind]. apply zero_fill_buffer_ok in Hb. rewrite mem_bytes_len in Hb. subst b.
+  pose proof (write_refines m (abs m) dst (loaded_bytes d off len) (R_abs m HI)) as W.
+  assert (Hl : lenN (loaded_bytes d off len) = len).
+  { unfold lenN, loaded_bytes. rewrite slice_zerofill_length. lia. }
+  rewrite Hl in W.
+  destruct (write_noownerchecks m dst (loaded_bytes d off len)) as [m''|e]; cbn [of_res]; [|discriminate].
+  intros H. injection H as <-. destruct W as [_ W]. split; [reflexivity|]. split; [reflexivity|]. exact W.
+Qed.
+
+(* and it does succeed whenever the destination is accessible and owned and the offset, if it is
+   inside the value, fits 32 bits *)
+Theorem copy_zero_fill_succeeds m o d dst len off nf :
+  Inv m -> check_range (abs m) dst len = None -> owns o dst (dst + len) = true ->
+  (off < lenN d -> off < U32) ->
+  exists m', copy_from_storage_zero_fill m o (Some d) dst len off (lenN d) nf = inl m'.
+Proof.
+  intros HI Hc Ho Hoff. unfold copy_from_storage_zero_fill, write_range.
+  rewrite (verify_refines m (abs m) dst len (R_abs m HI)), Hc. cbn [of_res vbind fst snd]. rewrite Ho. cbn [vbind].
+  destruct (zero_fill_buffer_succeeds d (mem_bytes m dst len) off nf Hoff) as [b Hb]. rewrite Hb. cbn [vbind].
+  pose proof Hb as Hb'. apply zero_fill_buffer_ok in Hb'. rewrite mem_bytes_len in Hb'. subst b.
+  pose proof (write_refines m (abs m) dst (loaded_bytes d off len) (R_abs m HI)) as W.
+  assert (Hl : lenN (loaded_bytes d off len) = len).
+  { unfold lenN, loaded_bytes. rewrite slice_zerofill_length. lia. }
+  rewrite Hl, Hc in W.
+  destruct (write_noownerchecks m dst (loaded_bytes d off len)) as [m''|e]; [eexists; reflexivity | discriminate].
+Qed.
+
+(* ---------------------------------------------------------------- (3) instructions *)
+Lemma R_ext m f f' :
+  R m f -> stk_hi f' = stk_hi f -> hp f' = hp f ->
+  (forall x, observable f x -> data f' x = data f x) -> R m f'.
+Proof.
+  intros [HI [E1 [E2 E3]]] H1 H2 H3. split; [exact HI|]. split; [congruence|]. split; [congruence|].
+  intros x Hx. rewrite E3 by exact Hx. symmetry. apply H3.
+  unfold observable in *. rewrite <- E1, <- E2. exact Hx.
+Qed.
+
+Lemma R_inv m f : R m f -> Inv m.
+Proof. intros [H _]; exact H. Qed.
+
+Lemma R_mem_get m f x : R m f -> observable f x -> mem_get m x = data f x.
+Proof.
+  intros [_ [E1 [E2 E3]]] Hx. apply (E3 x). unfold observable in *. cbn [abs stk_hi hp] in *.
+  rewrite E1, E2. exact Hx.
+Qed.
+
+(* CCP *)
+Theorem ccp_ok s contracts dst id_addr off len s' :
+  Inv (v_mem s) -> ccp s contracts dst id_addr off len = inl s' ->
+  exists id code,
+    read_id (v_mem s) id_addr = inl id /\ lookup contracts id = Some code /\
+    v_ssp s' = v_ssp s /\ v_sp s' = v_sp s /\ v_hp s' = v_hp s /\
+    owns (owner_regs s) dst (dst + len) = true /\
+    R (v_mem s') {| stk_hi := sv_len (stack (v_mem s)); hp := mhp (v_mem s);
+                    data := upd_range (mem_get (v_mem s)) dst (loaded_bytes code off len) |}.
+Proof.
+  intros HI. unfold ccp. destruct (read_id (v_mem s) id_addr) as [id|e]; cbn [vbind]; [|discriminate].
+  destruct (write_range (v_mem s) (owner_regs s) dst len); cbn [vbind]; [|discriminate].
+  destruct (lookup contracts id) as [code|] eqn:Hl; cbn [m_size_of_value]; [|discriminate].
+  destruct (copy_from_storage_zero_fill (v_mem s) (owner_regs s) (Some code) dst len off (lenN code) ContractNotFound)
+    as [m'|e] eqn:Hc; cbn [vbind]; [|discriminate].
+  intros H. injection H as <-. destruct (copy_zero_fill_ok _ _ _ _ _ _ _ _ HI Hc) as [_ [Ho HR]].
+  exists id, code. split; [reflexivity|]. split; [exact Hl|]. split; [reflexivity|]. split; [reflexivity|].
+  split; [reflexivity|]. split; [exact Ho | exact HR].
+Qed.
+
+(* BLDD *)
+Theorem bldd_ok s blobs dst id_addr off len s' :
+  Inv (v_mem s) -> bldd s blobs dst id_addr off len = inl s' ->
+  exists id blob,
+    read_id (v_mem s) id_addr = inl id /\ lookup blobs id = Some blob /\
+    v_ssp s' = v_ssp s /\ v_sp s' = v_sp s /\ v_hp s' = v_hp s /\
+    owns (owner_regs s) dst (dst + len) = true /\
+    R (v_mem s') {| stk_hi := sv_len (stack (v_mem s)); hp := mhp (v_mem s);
+                    data := upd_range (mem_get (v_mem s)) dst (loaded_bytes blob off len) |}.
+Proof.
+  intros HI. unfold bldd. destruct (read_id (v_mem s) id_addr) as [id|e]; cbn [vbind]; [|discriminate].
+  destruct (lookup blobs id) as [code|] eqn:Hl; cbn [m_size_of_value]; [|discriminate].
+  destruct (copy_from_storage_zero_fill (v_mem s) (owner_regs s) (Some code) dst len off (lenN code) BlobNotFound)
+    as [m'|e] eqn:Hc; cbn [vbind]; [|discriminate].
+  intros H. injection H as <-. destruct (copy_zero_fill_ok _ _ _ _ _ _ _ _ HI Hc) as [_ [Ho HR]].
+  exists id, code. split; [reflexivity|]. split; [exact Hl|]. split; [reflexivity|]. split; [reflexivity|].
+  split; [reflexivity|]. split; [exact Ho | exact HR].
+Qed.
+
+(* CSIZ / BSIZ return the length of the stored value *)
+Theorem csiz_ok s contracts id_addr n :
+  csiz s contracts id_addr = inl n ->
+  exists id code, read_id (v_mem s) id_addr = inl id /\ lookup contracts id = Some code /\ n = lenN code.
+Proof.
+  unfold csiz. destruct (read_id (v_mem s) id_addr) as [id|e]; cbn [vbind]; [|discriminate].
+  destruct (lookup contracts id) as [code|] eqn:Hl; cbn [m_size_of_value]; [|discriminate].
+  intros H. injection H as <-. eauto.
+Qed.
+Theorem bsiz_ok s blobs id_addr n :
+  bsiz s blobs id_addr = inl n ->
+  exists id blob, read_id (v_mem s) id_addr = inl id /\ lookup blobs id = Some blob /\ n = lenN blob.
+Proof.
+  unfold bsiz. destruct (read_id (v_mem s) id_addr) as [id|e]; cbn [vbind]; [|discriminate].
+  destruct (lookup blobs id) as [code|] eqn:Hl; cbn [m_size_of_value]; [|discriminate].
+  intros H. injection H as <-. eauto.
+Qed.
+
+(* stack growth as used by LDC *)
+Lemma grow_stack_ok m n m1 :
+  Inv m -> grow_stack m n = inl m1 ->
+  n <= MEM_SIZE /\
+  R m1 {| stk_hi := N.max (sv_len (stack m)) n; hp := mhp m;
+          data := zero_range (mem_get m) (sv_len (stack m)) n |}.
+Proof.
+  intros HI Hg. pose proof (grow_stack_refines m (abs m) n (R_abs m HI)) as H. cbn [abs stk_hi hp data] in H.
+  destruct (N.ltb_spec MEM_SIZE n); [congruence|]. split; [assumption|].
+  destruct (N.leb_spec n (sv_len (stack m))).
+  - assert (m1 = m) by congruence. subst m1.
+    apply (R_ext m (abs m)); [apply R_abs; exact HI | cbn [abs stk_hi]; lia | reflexivity |].
+    intros x Hx. cbn [data abs]. unfold zero_range. unfold observable in Hx; cbn [abs stk_hi hp] in Hx.
+    destruct HI as [I1 _]. replace ((sv_len (stack m) <=? x) && (x <? n)) with false by nbs. reflexivity.
+  - destruct (mhp m <? n); [congruence|]. destruct H as [m' [Hg' HR]]. assert (m' = m1) by congruence. subst m'.
+    replace (N.max (sv_len (stack m)) n) with n by lia. exact HR.
+Qed.
+
+Lemma padded_len_word_spec c l : padded_len_word c = Some l -> l = padded_len c /\ c <= l /\ l < c + 8 /\ l mod 8 = 0.
+Proof.
+  unfold padded_len_word, padded_len, checked_add. pose proof (N.mod_upper_bound c 8 ltac:(lia)) as Hm.
+  destruct (N.eqb_spec (c mod 8) 0) as [He|Hne].
+  - intros H. injection H as <-. split; [reflexivity|]. split; [lia|]. split; [lia | exact He].
+  - destruct (c + (8 - c mod 8) <? U64); [|discriminate]. intros H. injection H as <-.
+    split; [reflexivity|]. split; [lia|]. split; [generalize dependent (c mod 8); intros; lia|].
+    pose proof (N.div_mod c 8 ltac:(lia)) as Hd.
+    replace (c + (8 - c mod 8)) with ((c / 8 + 1) * 8) by lia. apply N.mod_mul. lia.
+Qed.
+
+(* the storage tail of LDC modes 0 and 1: registers, stack growth and the loaded region *)
+Theorem ldc_storage_tail_ok s code off length nf strict s' :
+  Inv (v_mem s) -> ldc_storage_tail s (Some code) (lenN code) off length nf strict = inl s' ->
+  let m := v_mem s in
+  let new_sp := v_ssp s + length in
+  new_sp <= MEM_SIZE /\ v_ssp s' = new_sp /\ v_sp s' = new_sp /\ v_hp s' = v_hp s /\
+  owns (only_stack new_sp (v_ssp s) (v_hp s)) (v_ssp s) new_sp = true /\
+  exists m2,
+    R m2 {| stk_hi := N.max (sv_len (stack m)) new_sp; hp := mhp m;
+            data := upd_range (zero_range (mem_get m) (sv_len (stack m)) new_sp) (v_ssp s)
+                              (loaded_bytes code off length) |} /\
+    update_code_size s m2 length strict = inl (v_mem s').
+Proof.
+  intros HI. unfold ldc_storage_tail. pose proof MEM_facts as [M1 [M2 M3]].
+  destruct (grow_stack (v_mem s) (saturating_add U64 (v_ssp s) length)) as [m1|e] eqn:Hg; cbn [of_res vbind]; [|discriminate].
+  destruct (grow_stack_ok _ _ _ HI Hg) as [Hle HR1].
+  assert (Hsat : saturating_add U64 (v_ssp s) length = v_ssp s + length) by (unfold saturating_add in *; lia).
+  rewrite Hsat in *.
+  destruct (copy_from_storage_zero_fill m1 _ (Some code) (v_ssp s) length off (lenN code) nf) as [m2|e] eqn:Hc;
+    cbn [vbind]; [|discriminate].
+  destruct (update_code_size s m2 length strict) as [m3|e] eqn:Hu; cbn [vbind]; [|discriminate].
+  intros H. injection H as <-. cbn [v_ssp v_sp v_hp v_mem].
+  destruct (copy_zero_fill_ok _ _ _ _ _ _ _ _ (R_inv _ _ HR1) Hc) as [Hchk [Ho HR2]].
+  split; [exact Hle|]. split; [reflexivity|]. split; [reflexivity|]. split; [reflexivity|]. split; [exact Ho|].
+  exists m2. split; [|exact Hu].
+  pose proof HR1 as [_ [E1 [E2 _]]]. cbn [abs stk_hi hp] in E1, E2.
+  eapply R_ext; [exact HR2 | cbn [stk_hi]; congruence | cbn [hp]; congruence |].
+  intros x Hx. cbn [data]. unfold upd_range.
+  destruct ((v_ssp s <=? x) && (x <? v_ssp s + lenN (loaded_bytes code off length))); [reflexivity|].
+  unfold observable in Hx. cbn [stk_hi hp] in Hx. symmetry.
+  apply (R_mem_get m1 _ x HR1). unfold observable; cbn [stk_hi hp]. rewrite <- E1, <- E2. exact Hx.
+Qed.
+
+(* LDC mode 0 *)
+Theorem ldc_contract_ok s contracts id_addr off c s' :
+  Inv (v_mem s) -> ldc_contract s contracts id_addr off c = inl s' ->
+  exists id code,
+    v_ssp s = v_sp s /\ read_id (v_mem s) id_addr = inl id /\ lookup contracts id = Some code /\
+    padded_len c <= v_max_size s /\
+    ldc_storage_tail s (Some code) (lenN code) off (padded_len c) ContractNotFound true = inl s'.
+Proof.
+  intros HI. unfold ldc_contract. destruct (N.eqb_spec (v_ssp s) (v_sp s)) as [He|]; cbn [negb]; [|discriminate].
+  destruct (read_id (v_mem s) id_addr) as [id|e]; cbn [vbind]; [|discriminate].
+  destruct (padded_len_word c) as [l|] eqn:Hp; [|discriminate].
+  apply padded_len_word_spec in Hp as [-> _].
+  destruct (N.ltb_spec (v_max_size s) (padded_len c)); [discriminate|].
+  destruct (lookup contracts id) as [code|] eqn:Hl; cbn [m_size_of_value]; [|discriminate].
+  intros Ht. exists id, code. split; [exact He|]. split; [reflexivity|]. split; [exact Hl|]. split; [assumption | exact Ht].
+Qed.
+
+(* LDC mode 1 *)
+Theorem ldc_blob_ok s blobs id_addr off c s' :
+  Inv (v_mem s) -> ldc_blob s blobs id_addr off c = inl s' ->
+  exists id blob,
+    v_ssp s = v_sp s /\ read_id (v_mem s) id_addr = inl id /\ lookup blobs id = Some blob /\
+    ldc_storage_tail s (Some blob) (lenN blob) off (padded_len c) BlobNotFound false = inl s'.
+Proof.
+  intros HI. unfold ldc_blob. destruct (N.eqb_spec (v_ssp s) (v_sp s)) as [He|]; cbn [negb]; [|discriminate].
+  destruct (read_id (v_mem s) id_addr) as [id|e]; cbn [vbind]; [|discriminate].
+  destruct (lookup blobs id) as [code|] eqn:Hl; cbn [m_size_of_value]; [|discriminate].
+  destruct (padded_len_word c) as [l|] eqn:Hp.
+  - apply padded_len_word_spec in Hp as [-> _]. intros H. exists id, code.
+    split; [exact He|]. split; [reflexivity|]. split; [exact Hl | exact H].
+  - (* the padded length does not fit a word: the stack cannot grow that far *)
+    intros H. exfalso. pose proof MEM_facts as [M1 [M2 M3]].
+    unfold ldc_storage_tail in H.
+    destruct (grow_stack (v_mem s) (saturating_add U64 (v_ssp s) u64_max)) as [m1|e] eqn:Hg; cbn [of_res vbind] in H; [|discriminate].
+    destruct (grow_stack_ok _ _ _ HI Hg) as [Hle _]. unfold saturating_add, u64_max, U64 in Hle. unfold U64 in M2. lia.
+Qed.
+
+(* when the loaded region ends at or beyond the value, or $rC is word aligned, the padding is zero *)
+Lemma loaded_bytes_strict d off c l :
+  lenN d <= off + c -> c <= l ->
+  loaded_bytes d off l = loaded_bytes d off c ++ zeros (N.to_nat (l - c)).
+Proof.
+  intros H1 H2. unfold loaded_bytes, slice_zerofill. rewrite !firstn_app_zeros.
+  set (a := skipn (N.to_nat off) d).
+  assert (Ha : (length a <= N.to_nat c)%nat) by (unfold a; rewrite skipn_length; unfold lenN in H1; lia).
+  rewrite !Nat.min_l by lia. rewrite <- app_assoc. f_equal. unfold zeros. rewrite <- repeat_app. f_equal. lia.
+Qed.
+
+(* the strict reading of the padding rule is false *)
+Theorem ldc_strict_padding_refuted : ~ ldc_contract_padding_is_zero.
+Proof.
+  intros H.
+  assert (HI : Inv (v_mem ldc_witness_vm)).
+  { unfold Inv; cbn [ldc_witness_vm v_mem ldc_witness_mem stack heap mhp].
+    rewrite sv_len_write, sv_len_resize. cbn [sv_len sv_empty]. unfold MEM_SIZE. lia. }
+  destruct (ldc_contract ldc_witness_vm ldc_witness_contracts 0 0 1) as [s'|e] eqn:He.
+  - specialize (H ldc_witness_vm ldc_witness_contracts 0 0 1 s' HI eq_refl He 1 ltac:(lia) ltac:(vm_compute; reflexivity)).
+    revert He H. vm_compute. intros He. injection He as <-. vm_compute. discriminate.
+  - revert He. vm_compute. discriminate.
+Qed.
+
+(* ---------------------------------------------------------------- statements for Properties/C36.v *)
+Theorem loaded_bytes_spec d off n :
+  length (loaded_bytes d off n) = N.to_nat n /\
+  forall i, (i < N.to_nat n)%nat -> nth i (loaded_bytes d off n) 0 = nth (N.to_nat off + i) d 0.
+Proof. split; [apply slice_zerofill_length | intros i Hi; apply slice_zerofill_nth; exact Hi]. Qed.
+
+Theorem csiz_bsiz_ok (s : vm) (tbl : storage) (id_addr n : N) :
+  (csiz s tbl id_addr = inl n ->
+     exists id code, read_id (v_mem s) id_addr = inl id /\ lookup tbl id = Some code /\ n = lenN code) /\
+  (bsiz s tbl id_addr = inl n ->
+     exists id blob, read_id (v_mem s) id_addr = inl id /\ lookup tbl id = Some blob /\ n = lenN blob).
+Proof. split; [apply csiz_ok | apply bsiz_ok]. Qed.
+
+(* the hypotheses of the instruction theorems are satisfiable (non-vacuity) *)
+Definition example_vm : vm :=
+  {| v_mem := ldc_witness_mem; v_ssp := 32; v_sp := 64; v_hp := MEM_SIZE; v_fp := 0;
+     v_internal := false; v_max_size := 1024 |}.
+Example example_inv : Inv (v_mem example_vm).
+Proof.
+  unfold Inv; cbn [example_vm v_mem ldc_witness_mem stack heap mhp].
+  rewrite sv_len_write, sv_len_resize. cbn [sv_len sv_empty]. unfold MEM_SIZE. lia.
+Qed.
+Example ccp_example : exists s', ccp example_vm ldc_witness_contracts 40 0 3 16 = inl s'.
+Proof. eexists. vm_compute. reflexivity. Qed.
+Example bldd_example : exists s', bldd example_vm ldc_witness_contracts 40 0 15 8 = inl s'.
+Proof. eexists. vm_compute. reflexivity. Qed.
+Example ldc_contract_example : exists s', ldc_contract ldc_witness_vm ldc_witness_contracts 0 3 9 = inl s'.
+Proof. eexists. vm_compute. reflexivity. Qed.
+Example ldc_blob_example : exists s', ldc_blob ldc_witness_vm ldc_witness_contracts 0 0 16 = inl s'.
+Proof. eexists. vm_compute. reflexivity. Qed.
+Example read_exact_hyp_example : forall d, Some [1; 2; 3] = Some d -> lenN d < U64 - 1.
+Proof. intros d H. injection H as <-. vm_compute. reflexivity. Qed.
